@@ -85,7 +85,7 @@ def snapshot(env, extra=()):
     return {id(e): content(e) for e in reachable_elems(list(env.values()) + list(extra))}
 
 
-def run_with_loop(I, st, fr, func, args, kwargs, mode, havoc=None, ghost=None, declared=None, extra_roots=(), allow_no_loop=False):
+def run_with_loop(I, st, fr, func, args, kwargs, mode, havoc=None, ghost=None, declared=None, extra_roots=(), allow_no_loop=False, readonly=()):
     """havoc(env, fr, run): step mode, sets the generic loop-head state; declared(env) -> list of objects the
     contract allows the body to mutate"""
     run = LoopRun()
@@ -140,6 +140,8 @@ def run_with_loop(I, st, fr, func, args, kwargs, mode, havoc=None, ghost=None, d
             ok = set(id(o) for o in reachable_elems(declared(run.head)))
             for i, (e, c) in before.items():
                 if content(e) is not c and i not in ok:
+                    if any(e is r for r in readonly):
+                        continue        # caller-owned read-only data: the unit's own frame obligation reports the write (a violation, not a contract gap)
                     raise Unsupported('loop body writes a buffer the loop contract does not declare (%s)' % getattr(e, 'ename', '?'))
         # the function finishes as if the loop were over (post-loop code)
         if run.body_exit != 'break':
